@@ -188,6 +188,15 @@ def run(chk):
         wr = [n for n in ast.walk(W) if isinstance(n, ast.Call) and last_attr(n.func) == "write"]
         ok = bool(wr) and isinstance(wr[0].args[0], ast.Call) and last_attr(wr[0].args[0].func) == "_render_template" and u(wr[0].args[0].args[2]) == "source_file"
         chk.ob("O13.3", f"{tag}: the rendered template is written", ok, wr[0] if wr else W, "")
+        # templates are looked up by BASE name, so the environment (and with it Jinja's template cache, keyed by loader and name) must belong to the walked directory
+        rcall = [n for n in ast.walk(W) if isinstance(n, ast.Call) and last_attr(n.func) == "_render_template"]
+        envarg = rcall[0].args[0] if rcall and rcall[0].args else None
+        envdef = adefs.get(envarg.id) if isinstance(envarg, ast.Name) else envarg
+        ok = isinstance(envdef, ast.Call) and last_attr(envdef.func) == "Environment" and any(
+            isinstance(x, ast.Call) and last_attr(x.func) == "FileSystemLoader" and x.args and u(x.args[0]) == rootv for x in ast.walk(envdef))
+        chk.ob("O13.3", f"{tag}: a fresh template environment per walked directory, loading from that directory", ok, rcall[0] if rcall else W,
+               (u(envdef)[:80] if envdef is not None else "environment is not created inside the walk") + ("" if ok else " — same-named templates of different directories share one cached template"),
+               key=f"{_P}:{tag}:env-per-directory")
         cps = [n for n in ast.walk(W) if isinstance(n, ast.Call) and dotted(n.func) in ("shutil.copy", "shutil.copy2", "shutil.copyfile")]
         ok = bool(cps) and [u(a) for a in cps[0].args] == ["source_file", "target_file"] and any((not pol) and "plain_text" in u(t) for t, pol in guards(cps[0], stop=W))
         chk.ob("O13.3", f"{tag}: other files copied verbatim", ok, cps[0] if cps else W, "")
